@@ -5,7 +5,7 @@ CONSTANTS RF1 = {1, 2, 3, 4, 5, 6}
           RF2 = {2, 3}
           N2 = 3
           Outcomes = {"ok", "conflict", "unavailable", "notready"}
-          Outcomes2 = {"ok", "conflict", "unavailable", "notready"}
+          Outcomes2 = {"ok", "conflict", "unavailable"}
           ReplThresholdIsQuorum = FALSE
           WithTimeout = FALSE
           CaseRF1 = {1, 2, 3, 4, 5, 6}
